@@ -103,4 +103,15 @@ def handleSem : List String → String
     | .oob => "undefined"
   | _ => "bad-op"
 
+def decPR (s : String) : List (Bool × Nat) :=
+  if s == "-" then [] else (s.splitOn ";").map fun t =>
+    match decNats t with
+    | [a, r] => (b a, r)
+    | _ => (false, 0)
+
+/-- `gtargets <self> <next> <cparams> <generic params>*`, params as `native,rank;...` -/
+def handleGtargets : List String → String
+  | self :: next :: cp :: gs => encNats (genericTargets self.toNat! next.toNat! (decPR cp) (gs.map decPR))
+  | _ => "bad-op"
+
 end Driver
